@@ -125,8 +125,13 @@ def run_case(ctx, rng, case):
         k = rng.choice((0, 2, 4, 8))
         if represent(wrapped, indent=k) != represent(plain, indent=k):
             ctx.violation("repr_with_indent_differs", {**info, "indent": k})
+        del custom.SEEN_KWARGS[:]
         if represent(wrapped, marker=1) != represent(plain, marker=1):
             ctx.violation("repr_with_kwargs_differs", info)
+        lost = [op for op, kw in custom.SEEN_KWARGS if op == "represent" and kw.get("marker") != 1]
+        ctx.count("kwargs_forwarding_observed", len(custom.SEEN_KWARGS))
+        if lost:
+            ctx.violation("extra_keyword_argument_not_forwarded_to_custom_hook:represent", {**info, "hooks_without_kwarg": len(lost)})
     except Exception as e:  # noqa
         ctx.violation(f"repr_raised:{type(e).__name__}", {**info, "exc": O.exc_info(e)})
     # values
@@ -144,7 +149,11 @@ def run_case(ctx, rng, case):
         vals.extend(p for p, _ in ps)
     if vals:
         vals.append(partialise(tree, vals[0], rng))
-    vals += [None, [], {}]
+    vals += [None, [], {}, ...]
+    if vals and isinstance(vals[0], (list, dict)):
+        from ..gen_subst import placeholders
+        ph = placeholders(vals[0], rng)
+        vals += rng.sample(ph, min(4, len(ph)))
     for v in vals:
         ep, xp = O.real_validate(plain, v)
         try:
@@ -164,13 +173,21 @@ def run_case(ctx, rng, case):
                                                        "wrapped_errors": [repr(e)[:200] for e in ew[:4]]})
         # extra kwargs are forwarded
         try:
+            del custom.SEEN_KWARGS[:]
             ek = validate(wrapped, v, marker=1).get_errors()
+            seen = list(custom.SEEN_KWARGS)
             if errsig(ek) != errsig(ep):
                 ctx.violation("validation_with_kwargs_differs", {**info, "value": enc(v)})
+            # (rendering an error may call the represent hook without the marker: only validate hooks are judged here)
+            lost = [op for op, kw in seen if op == "validate" and kw.get("marker") != 1]
+            ctx.count("kwargs_forwarding_observed", len(seen))
+            if lost:
+                ctx.violation("extra_keyword_argument_not_forwarded_to_custom_hook:validate",
+                              {**info, "value": enc(v), "hooks_without_kwarg": len(lost)})
         except Exception as e:  # noqa
             ctx.violation(f"validate_with_kwargs_raised:{type(e).__name__}", {**info, "value": enc(v), "exc": O.exc_info(e)})
-        # substitution
-        if is_plain(v):
+        # substitution (plain values and ... placeholders alike: outcomes must coincide)
+        if True:
             def sub(s):
                 try:
                     return "ok", substitute(s, v)
